@@ -5,7 +5,7 @@
      xw <table> <obj> <stream>...     stream = framed:room:op;op;...   op = W<hex> | R<hex>/<limits> | F
      xr <table> <obj> <stream>...     stream = srchex:R<count>x<sizes> | srchex:T
      pool <kind> <action>...          action = N<fail>:<pick|-> | U<w> | C<w>
-     rt / hist / conc                 implementation-only predicates, echoed as "ok"
+     rt / hist / conc / mix / proto   implementation-only predicates, echoed as "ok"
    <table> = block:chunk,...  ("!" for a chunk the decoder rejects): the snappy block
    codec as the Go side observed it; it answers the model's enc / dec / declen calls.
    A call outside the table means the model asked for a block the implementation
@@ -217,7 +217,7 @@ let eval (op : string) (a : string list) : string =
   | "xr", tab :: obj :: streams -> eval_xr tab obj streams
   | "pool", kind :: acts -> eval_pool kind acts
   | "sb", [c] -> (match snappy_block_decode (bytes_of_hex c) with Some b -> hexs b | None -> "!")
-  | ("rt" | "hist" | "conc" | "quirk"), _ -> "ok"
+  | ("rt" | "hist" | "conc" | "mix" | "proto"), _ -> "ok"
   | _ -> "BADCASE"
 
 let () =
